@@ -10,6 +10,7 @@ import (
 	"os"
 	"path/filepath"
 	"sort"
+	"strconv"
 	"strings"
 	"time"
 )
@@ -171,6 +172,17 @@ func NewRun(prop string, seed uint64, tier, out string, budget float64) *Run {
 		seen:  map[uint64]struct{}{}, ops: bufio.NewWriterSize(fo, 1<<20), impl: bufio.NewWriterSize(fi, 1<<20), fo: fo, fi: fi}
 }
 
+// caseTimeout is the per-case safety net of Run.Do (VERIF_CASE_TIMEOUT seconds, 0 disables; default 120 s —
+// far above any legitimate case, which takes milliseconds to a few seconds).
+func caseTimeout() time.Duration {
+	if v := os.Getenv("VERIF_CASE_TIMEOUT"); v != "" {
+		if n, err := strconv.Atoi(v); err == nil {
+			return time.Duration(n) * time.Second
+		}
+	}
+	return 120 * time.Second
+}
+
 func (r *Run) Thorough() bool { return r.Tier == "thorough" }
 
 // Scale multiplies a quick-tier count by the budget factor (thorough, or enlarged because modelled
@@ -192,7 +204,26 @@ func (r *Run) Do(component string, c Case, exec Exec) Result {
 		return Result{BadOp: -1}
 	}
 	r.n++
-	res := exec(c)
+	// Safety net: an executor without a watchdog of its own must not let a non-returning operation of
+	// (changed) code under test stall the whole check. A case that does not come back within
+	// CaseTimeout is recorded as a hang: inadmissible for every property (no operation of the modelled
+	// code may fail to return), no shrinking (the goroutine cannot be killed), exploration stops.
+	var res Result
+	if d := caseTimeout(); d > 0 {
+		ch := make(chan Result, 1)
+		go func() { ch <- exec(c) }()
+		select {
+		case res = <-ch:
+		case <-time.After(d):
+			res = Result{Outs: []string{"hang"}, BadOp: 0, Nontrivial: true, Tags: []string{"case-watchdog"},
+				What: fmt.Sprintf("the case did not return within %v: some operation of the implementation never returns", d)}
+			if len(c.Ops) == 0 {
+				c.Ops = []string{"(case without operations)"}
+			}
+		}
+	} else {
+		res = exec(c)
+	}
 	for _, o := range res.Outs {
 		if o == "hang" || strings.HasPrefix(o, "hang ") {
 			r.hung = true
